@@ -42,6 +42,9 @@ use crate::hll::serialization::encode_mode_byte;
 
 const AUX_TOKEN: u8 = 15;
 
+/// Largest register value (a coupon carries a 6-bit value)
+const MAX_VALUE: u8 = 63;
+
 /// Core Array4 data structure - stores 4-bit values efficiently
 #[derive(Debug, Clone, PartialEq)]
 pub struct Array4 {
@@ -322,13 +325,21 @@ impl Array4 {
         let kxq0 = cursor.read_f64_le().map_err(insufficient_data("kxq0"))?;
         let kxq1 = cursor.read_f64_le().map_err(insufficient_data("kxq1"))?;
 
-        // Read num_at_cur_min and aux_count
-        let num_at_cur_min = cursor
+        // Read num_at_cur_min and aux_count. num_at_cur_min is redundant (it is recomputed from
+        // the registers below, so that it cannot disagree with them).
+        let _num_at_cur_min = cursor
             .read_u32_le()
             .map_err(insufficient_data("num_at_cur_min"))?;
         let aux_count = cursor
             .read_u32_le()
             .map_err(insufficient_data("aux_count"))?;
+
+        // cur_min is a register value
+        if cur_min > MAX_VALUE {
+            return Err(Error::deserial(format!(
+                "cur_min must be at most {MAX_VALUE}, got {cur_min}"
+            )));
+        }
 
         // Read packed 4-bit byte array
         let mut data = vec![0u8; num_bytes];
@@ -338,8 +349,45 @@ impl Array4 {
             .read_exact(&mut data)
             .map_err(insufficient_data("data"))?;
 
-        // Read aux map if present
-        let mut aux_map = None;
+        // Create estimator and restore state
+        let mut estimator = HipEstimator::new(lg_config_k);
+        estimator.set_hip_accum(hip_accum);
+        estimator.set_kxq0(kxq0);
+        estimator.set_kxq1(kxq1);
+        estimator.set_out_of_order(ooo);
+
+        let mut array = Self {
+            lg_config_k,
+            bytes: data.into_boxed_slice(),
+            cur_min,
+            num_at_cur_min: 0,
+            aux_map: None,
+            estimator,
+        };
+
+        // The nibbles: count the registers at cur_min and the exception tokens, and reject
+        // values beyond the 6-bit range of a coupon.
+        let mut num_tokens: u32 = 0;
+        for slot in 0..(1u32 << lg_config_k) {
+            let raw = array.get_raw(slot);
+            if raw == AUX_TOKEN {
+                num_tokens += 1;
+            } else if cur_min + raw > MAX_VALUE {
+                return Err(Error::deserial(format!(
+                    "register {slot} exceeds {MAX_VALUE}: cur_min {cur_min} + {raw}"
+                )));
+            } else if raw == 0 {
+                array.num_at_cur_min += 1;
+            }
+        }
+
+        // Read the exceptions. Each one belongs to a slot holding the exception token, is at
+        // least cur_min + 15 and is listed once; every token has its exception.
+        if aux_count != num_tokens {
+            return Err(Error::deserial(format!(
+                "aux_count {aux_count} does not match the {num_tokens} exception tokens"
+            )));
+        }
         if aux_count > 0 {
             let mut aux = AuxMap::new(lg_config_k);
             for i in 0..aux_count {
@@ -350,26 +398,20 @@ impl Array4 {
                 })?;
                 let slot = get_slot(coupon) & ((1 << lg_config_k) - 1);
                 let value = get_value(coupon);
+                if array.get_raw(slot) != AUX_TOKEN
+                    || value < cur_min + AUX_TOKEN
+                    || aux.get(slot).is_some()
+                {
+                    return Err(Error::deserial(format!(
+                        "invalid aux entry: slot {slot}, value {value}"
+                    )));
+                }
                 aux.insert(slot, value);
             }
-            aux_map = Some(aux);
+            array.aux_map = Some(aux);
         }
 
-        // Create estimator and restore state
-        let mut estimator = HipEstimator::new(lg_config_k);
-        estimator.set_hip_accum(hip_accum);
-        estimator.set_kxq0(kxq0);
-        estimator.set_kxq1(kxq1);
-        estimator.set_out_of_order(ooo);
-
-        Ok(Self {
-            lg_config_k,
-            bytes: data.into_boxed_slice(),
-            cur_min,
-            num_at_cur_min,
-            aux_map,
-            estimator,
-        })
+        Ok(array)
     }
 
     /// Serialize Array4 to bytes
